@@ -301,7 +301,7 @@ async def part_caller(flavor, case, J):
     """Invalid requests from the caller: LocalProtocolError."""
     cnt = J.cnt
     for proto in ("h1", "h2"):
-        for declared, actual in ((5, 10), (10, 5), (0, 3), (3, 0)):
+        for declared, actual in ((5, 10), (10, 5), (0, 3), (3, 0), ("1" * 5000, 4)):
             for kind in ("bytes", "iter"):
                 net = simnet.Net()
                 net.log_events = False
@@ -315,15 +315,15 @@ async def part_caller(flavor, case, J):
                                                                 headers=[("Content-Length", str(declared))], content=content))
                 cnt["inputs"] += 1
                 cnt["oracle_documented"] += 1
-                ctx = {"flavor": flavor, "proto": proto, "declared": declared, "actual": actual, "body": kind}
-                J.sigs.add(f"caller|{proto}|{declared}<>{actual}|{kind}|{out.kind if out.kind != 'exc' else type(out.exc).__name__}")
+                ctx = {"flavor": flavor, "proto": proto, "declared": str(declared)[:12], "actual": actual, "body": kind}
+                J.sigs.add(f"caller|{proto}|{str(declared)[:12]}<>{actual}|{kind}|{out.kind if out.kind != 'exc' else type(out.exc).__name__}")
                 if out.kind == "hang":
                     # body shorter than declared: the server legitimately waits for the rest; only h1 can know locally
                     if proto == "h1":
                         J.v(f"hang:caller:{proto}", "request with a body shorter than its Content-Length hangs", ctx)
                 elif out.kind == "exc":
                     if not documented(out.exc):
-                        J.v(f"undocumented:caller:{proto}:{exc_name(out.exc)}", f"body {actual} bytes with Content-Length {declared}: {out.exc!r}", ctx)
+                        J.v(f"undocumented:caller:{proto}:{exc_name(out.exc)}", f"body {actual} bytes with Content-Length {str(declared)[:12]}: {out.exc!r}", ctx)
                     else:
                         cnt["oracle_class"] += 1
                 await guarded(flavor, api.close_pool)
